@@ -7,3 +7,6 @@ import BalmProofs.Props.C12
 #print axioms Balm.Impl.symbolicSeeds_spec
 #print axioms Balm.Impl.nodeSeeds_spec
 #print axioms Balm.Impl.reaches_attr
+#print axioms Balm.Impl.symbolicSeeds_checked
+#print axioms Balm.Impl.nodeSeeds_checked
+#print axioms Balm.Impl.symHypB_spec
